@@ -70,7 +70,9 @@ func matchPattern(pat, path []string, transparent bool) bool {
 		return len(pat) == 0
 	}
 	if isIndexSeg(path[0]) {
-		if transparent && matchPattern(pat, path[1:], transparent) {
+		// (only a name sees through a list level: a position named by the pattern is a
+		// position of this very list, "a.1" does not name a.0.1)
+		if transparent && (len(pat) == 0 || (!isIndexSeg(pat[0]) && pat[0] != "*")) && matchPattern(pat, path[1:], transparent) {
 			return true
 		}
 		return len(pat) > 0 && (pat[0] == path[0] || pat[0] == "*") && matchPattern(pat[1:], path[1:], transparent)
@@ -407,7 +409,22 @@ func init() {
 				tree.Dict("b", tree.Dict("a", tree.List(tree.LeafN("L"))), "a", tree.List(tree.LeafN("L"))),
 				tree.Dict("b", tree.Dict("b", tree.Dict("a", tree.List(tree.LeafN("L")))), "a", tree.List(tree.LeafN("L"))),
 			})
+			// options naming list positions, on lists longer than the positions named and on lists of lists
+			L_ := func() *tree.Node { return tree.LeafN("L") }
+			da := func() *tree.Node { return tree.Dict("a", tree.List(L_())) }
+			idxTrees := []*tree.Node{
+				tree.Dict("a", tree.List(da(), da(), da(), da())),
+				tree.Dict("a", tree.List(da(), tree.Dict("a", tree.List(L_()), "b", tree.List(L_())), da())),
+				tree.Dict("a", tree.List(tree.List(L_(), L_()), tree.List(L_(), L_()), tree.List(L_(), L_()))),
+				tree.Dict("a", tree.List(tree.List(L_()), tree.List(L_(), L_(), L_()))),
+				tree.Dict("a", tree.List(L_(), L_(), L_())),
+				tree.Dict("a", tree.List(tree.List(tree.List(L_()), tree.List(L_())), tree.List(tree.List(L_()), tree.List(L_())), tree.List(tree.List(L_()), tree.List(L_())))),
+				tree.Dict("a", tree.List(tree.List(da(), da()), tree.List(da(), da()))),
+				tree.Dict("a", tree.List(da(), tree.List(L_(), L_()), da()), "b", tree.List(L_())),
+			}
+			idxPaths := []string{"a.0", "a.1", "a.2", "a.1.a", "a.0.a", "a.2.b", "a.1.0", "a.0.1", "a.1.1", "a.3"}
 			return []*core.Space{
+				c16Space("index-options-on-long-lists", idxTrees, idxPaths, 1),
 				c16Space("one-option", base, paths, 1),
 				c16Space("one-option-spines", sp, append(append([]string{}, paths...), "a.0.a", "a.1", "a.1.a"), 1),
 				c16Reuse(reuseTrees, []string{"a", "b", "a.a", "a.b", "b.a"}),
